@@ -178,7 +178,7 @@ func getCatalogue() *catalogue {
 	return cat
 }
 
-var sizeChoices = []uint64{0, 8, 10, 12, 16, 20, 24, 28, 32, 48, 64, 128, 256, 2048, 3072, 4096, 4096 + 1, 1 << 20}
+var sizeChoices = []uint64{0, 8, 10, 12, 16, 20, 24, 28, 32, 48, 64, 128, 256, 2048, 3072, 4096, 4096 + 1}
 
 // randomizeFormat re-picks, each with probability pct, the enum fields (any
 // value of the enum), the integer fields (interesting sizes) and the nested
@@ -748,6 +748,9 @@ func gen(r *hx.Rng, n int, tier string) []string {
 			return genKey{}, false
 		}
 		s0, err := protoserialization.SerializeKey(k0)
+		if err == nil && len(s0.KeyData().GetValue()) > 20000 {
+			return genKey{}, false // keep case lines small
+		}
 		if err != nil {
 			genfail("SerializeKey failed on a freshly generated key of " + url + ": " + err.Error())
 			return genKey{}, false
@@ -795,7 +798,7 @@ func gen(r *hx.Rng, n int, tier string) []string {
 			}
 			id, _ := s.IDRequirement()
 			kd := s.KeyData()
-			for _, v := range []string{"prefix", "bigint", "overflow", "wire", "rawid"} {
+			for _, v := range []string{"prefix", "bigint", "overflow", "wire", "rawid", "customkid"} {
 				if !r.Chance(35) {
 					continue
 				}
@@ -808,8 +811,8 @@ func gen(r *hx.Rng, n int, tier string) []string {
 					} else if nid == 0 {
 						nid = pickID(r)
 					}
-					if strings.Contains(url, "Jwt") || strings.Contains(url, "PrfBasedDeriver") {
-						continue // prefix is tied to other fields of these keys (custom kid, derived template)
+					if strings.Contains(url, "PrfBasedDeriver") {
+						continue // the prefix of these keys is tied to the derived key template inside
 					}
 					add(keyLineRaw("prefix", kd.GetTypeUrl(), uint32(kd.GetKeyMaterialType()), np, nid, kd.GetValue()))
 				case "bigint", "overflow":
@@ -823,6 +826,30 @@ func gen(r *hx.Rng, n int, tier string) []string {
 					mt := msgTypeOfURL(kd.GetTypeUrl())
 					nv := noisyReencode(r, mt.Descriptor(), kd.GetValue(), 0)
 					add(keyLineRaw("wire", kd.GetTypeUrl(), uint32(kd.GetKeyMaterialType()), uint32(s.OutputPrefixType()), id, nv))
+				case "customkid":
+					// JWT keys may carry a custom kid (only with RAW); never produced by key generation
+					if !strings.Contains(kd.GetTypeUrl(), "Jwt") {
+						continue
+					}
+					m := msgTypeOfURL(kd.GetTypeUrl()).New()
+					if proto.Unmarshal(kd.GetValue(), m.Interface()) != nil {
+						continue
+					}
+					pm, fd := fieldByPath(m, "custom_kid.value")
+					if pm == nil {
+						pm, fd = fieldByPath(m, "public_key.custom_kid.value")
+					}
+					if pm == nil {
+						continue
+					}
+					kid := hx.PickS(r, []string{"", "kid", "c12-custom-kid-\u00e9"})
+					pm.Set(fd, protoreflect.ValueOfString(kid))
+					np := uint32(s.OutputPrefixType())
+					nid := id
+					if r.Chance(70) {
+						np, nid = 3, 0
+					}
+					add(keyLineRaw("customkid", kd.GetTypeUrl(), uint32(kd.GetKeyMaterialType()), np, nid, detMarshal(m.Interface())))
 				case "rawid":
 					// a RAW key cannot carry an id requirement
 					if s.OutputPrefixType() == tinkpb.OutputPrefixType_RAW {
